@@ -120,7 +120,10 @@ where
         let data = self.stream.buf_mut().take_chunk(self.remaining_data);
 
         match (data, end) {
-            (None, true) => Poll::Ready(Ok(None)),
+            // Only a stream without a finite length (WebTransport) may end here; a DATA
+            // frame with bytes still owed is truncated.
+            (None, true) if self.remaining_data == usize::MAX => Poll::Ready(Ok(None)),
+            (None, true) => Poll::Ready(Err(FrameStreamError::UnexpectedEnd)),
             (None, false) => Poll::Pending,
             (Some(d), true)
                 if d.remaining() < self.remaining_data
